@@ -259,11 +259,36 @@ type c09EncIn struct {
 	// with these caps
 	ReadBack bool  `json:"readBack,omitempty"`
 	Caps     []int `json:"caps,omitempty"`
+	// Bad: indices of Hdrs that are turned into messages that CANNOT be encoded (a string field
+	// holding invalid UTF-8: in the name for even indices, in the last value for odd ones): their
+	// write must fail and leave nothing in the stream
+	Bad []int `json:"bad,omitempty"`
 }
 type c09EncOut struct {
 	Stream string   `json:"stream"`
-	Bodies []string `json:"bodies"`
+	Bodies []string `json:"bodies"` // of the messages whose write succeeded
 	Back   []c09Res `json:"back,omitempty"`
+	Failed []int    `json:"failed"` // indices whose write returned an error
+}
+
+func c09IsBad(bad []int, i int) bool {
+	for _, b := range bad {
+		if b == i {
+			return true
+		}
+	}
+	return false
+}
+
+// c09BadHdr is h with invalid UTF-8 in one of its string fields: sizing it works, marshalling fails.
+func c09BadHdr(h []string, i int) *conformancev1.Header {
+	m := c09Hdr(h)
+	if i%2 == 0 || len(m.Value) == 0 {
+		m.Name = "\xff\xfe" + m.Name
+	} else {
+		m.Value[len(m.Value)-1] += "\xc3\x28"
+	}
+	return m
 }
 
 func c09Hdr(h []string) *conformancev1.Header {
@@ -275,7 +300,13 @@ func c09Hdr(h []string) *conformancev1.Header {
 
 func c09Enc(in c09EncIn) c09EncOut {
 	var buf bytes.Buffer
-	out := c09EncOut{Bodies: []string{}}
+	out := c09EncOut{Bodies: []string{}, Failed: []int{}}
+	mk := func(i int, h []string) *conformancev1.Header {
+		if c09IsBad(in.Bad, i) {
+			return c09BadHdr(h, i)
+		}
+		return c09Hdr(h)
+	}
 	switch in.Via {
 	case "raw":
 		for _, b := range in.Bodies {
@@ -286,18 +317,20 @@ func c09Enc(in c09EncIn) c09EncOut {
 		}
 	case "codec":
 		enc := internal.NewCodec(false).NewEncoder(&buf)
-		for _, h := range in.Hdrs {
-			m := c09Hdr(h)
+		for i, h := range in.Hdrs {
+			m := mk(i, h)
 			if err := enc.Encode(m); err != nil {
-				panic(err)
+				out.Failed = append(out.Failed, i)
+				continue
 			}
 			out.Bodies = append(out.Bodies, gen.Hex(c09Marshal(m)))
 		}
 	case "wdm":
-		for _, h := range in.Hdrs {
-			m := c09Hdr(h)
+		for i, h := range in.Hdrs {
+			m := mk(i, h)
 			if err := internal.WriteDelimitedMessage(&buf, m); err != nil {
-				panic(err)
+				out.Failed = append(out.Failed, i)
+				continue
 			}
 			out.Bodies = append(out.Bodies, gen.Hex(c09Marshal(m)))
 		}
@@ -317,8 +350,10 @@ type c09JSONIn struct {
 	Ending string     `json:"ending"`
 	Cut    int        `json:"cut"` // -1: whole stream
 	Count  int        `json:"count"`
+	Bad    []int      `json:"bad,omitempty"` // as in c09EncIn
 }
 type c09JSONOut struct {
+	Failed []int `json:"failed"`
 	Results   []c09Res `json:"results"`
 	ValueEnds []int    `json:"valueEnds"` // offset just after the closing brace of message i
 	TextEnds  []int    `json:"textEnds"`  // offset after the white space the encoder wrote after it
@@ -328,10 +363,15 @@ type c09JSONOut struct {
 func c09JSON(in c09JSONIn) c09JSONOut {
 	var buf bytes.Buffer
 	enc := internal.NewCodec(true).NewEncoder(&buf)
-	out := c09JSONOut{Results: []c09Res{}, ValueEnds: []int{}, TextEnds: []int{}}
-	for _, h := range in.Hdrs {
-		if err := enc.Encode(c09Hdr(h)); err != nil {
-			panic(err)
+	out := c09JSONOut{Results: []c09Res{}, ValueEnds: []int{}, TextEnds: []int{}, Failed: []int{}}
+	for i, h := range in.Hdrs {
+		m := c09Hdr(h)
+		if c09IsBad(in.Bad, i) {
+			m = c09BadHdr(h, i)
+		}
+		if err := enc.Encode(m); err != nil {
+			out.Failed = append(out.Failed, i)
+			continue
 		}
 		text := buf.Bytes()
 		out.TextEnds = append(out.TextEnds, len(text))
@@ -516,11 +556,15 @@ func runC09(c *gen.Ctx) error {
 	bgCtx.R = c.R.Fork()
 	cliStalls := c09StallScenarios(c)
 	c.E.Add("clientstall-scenarios", len(cliStalls))
-	bg.Add(2)
+	bg.Add(3)
 	go func() {
 		defer bg.Done()
 		c09PipeGen(&bgCtx)
 		c09SiteGen(&bgCtx)
+	}()
+	go func() {
+		defer bg.Done()
+		c09SessionGen(c)
 	}()
 	go func() {
 		defer bg.Done()
@@ -841,6 +885,48 @@ func runC09(c *gen.Ctx) error {
 				}
 			}
 			encOne(via, sizes, true)
+		}
+	}
+	// messages that cannot be encoded between encodable ones: a failed write must leave nothing behind
+	nBad := 60
+	if c.Thorough() {
+		nBad = 600
+	}
+	for i := 0; i < nBad; i++ {
+		k := r.Range(1, 5)
+		hdrs := make([][]string, k)
+		var bad []int
+		total := 0
+		var bounds []int
+		for j := range hdrs {
+			hdrs[j] = c09HdrOfLen(r, gen.Pick(r, []int{0, 2, 3, 17, 127, 300, r.Range(2, 90)}))
+			if len(hdrs[j]) == 0 {
+				hdrs[j] = []string{"n"}
+			}
+			if r.Chance(2, 5) || (j == 0 && i%4 == 0) {
+				bad = append(bad, j)
+			} else {
+				total += 4 + len(c09Marshal(c09Hdr(hdrs[j])))
+				bounds = append(bounds, total)
+			}
+		}
+		if len(bad) == 0 {
+			bad = []int{k - 1}
+		}
+		via := []string{"codec", "wdm"}[i%2]
+		e.Count("enc-unencodable:" + via)
+		c.Do("enc", c09EncIn{Via: via, Bodies: []string{}, Hdrs: hdrs, Bad: bad, ReadBack: true, Caps: c09Caps(r, total, bounds, r.Intn(8))})
+		if i%2 == 0 {
+			// the JSON writer
+			var good [][]string
+			for j, h := range hdrs {
+				if !c09IsBad(bad, j) {
+					good = append(good, h)
+				}
+			}
+			probe := c09JSON(c09JSONIn{Hdrs: good, Caps: []int{}, Ending: "eof", Cut: -1, Count: 0})
+			e.Count("json-unencodable")
+			c.Do("json", c09JSONIn{Hdrs: hdrs, Bad: bad, Caps: c09Caps(r, probe.Len, probe.TextEnds, r.Intn(8)), Ending: "eof", Cut: -1, Count: k + 1})
 		}
 	}
 	// ---- (G) the JSON variant: same kind of sequences, judged by the property only
